@@ -89,7 +89,7 @@ func (g *Gen) cellArrName(t types.Type) (string, string) {
 
 func (g *Gen) elemArrName(t types.Type) (string, string) {
 	s := g.sortOf(t)
-	return "E$" + sanitize(s), "(Array Int (Array " + idxSort + " " + s + "))"
+	return "E$" + sanitize(s), "(Array Int (Array " + g.IS() + " " + s + "))"
 }
 
 func (g *Gen) isSplitStruct(t types.Type) bool {
@@ -254,7 +254,7 @@ func (g *Gen) ptrTerm(a *Addr) string {
 	}
 	if a.Kind == 1 {
 		k := sanitize(g.sortOf(a.T))
-		g.decl("fun:elemptr$"+k, fmt.Sprintf("(declare-fun elemptr$%s (Int (_ BitVec 64)) Int)", k))
+		g.decl("fun:elemptr$"+k, fmt.Sprintf("(declare-fun elemptr$%s (Int %s) Int)", k, g.IS()))
 		t := fmt.Sprintf("(elemptr$%s %s %s)", k, a.Base, a.Idx)
 		if len(a.Sels) > 0 {
 			panic(genErr("interior pointer into slice element field escapes"))
